@@ -490,4 +490,28 @@ def Coll.dropIndex (c : Coll) (name : String) : Res (Coll × List String) :=
     let dropped := (c.indexes.filter (·.1 != "_id_")).map (·.1)
     .ok ({ c with indexes := c.indexes.filter (·.1 == "_id_") }, dropped)
 
+/-! ### Index.List (appended for C15; nothing above depends on it) -/
+
+/-- column-wise key comparison of the btree's `less` without the identity tiebreak: `a ≤ b` -/
+def keyLe : List Column → List V → List V → Bool
+  | col :: cs, x :: r, y :: s =>
+    let res := V.cmp x y
+    let res := if col.reverse then res.swap else res
+    match res with
+    | .lt => true
+    | .gt => false
+    | .eq => keyLe cs r s
+  | _, _, _ => true
+
+/-- keep the first occurrence of every identity -/
+def dedupIds : List Nat → List Nat
+  | [] => []
+  | x :: r => x :: (dedupIds r).filter (· != x)
+
+/-- bsonkit.Index.List: the documents in ascending key order, each once (at its smallest key).
+    Among entries with equal keys the btree orders by pointer value, which is not observable;
+    the model keeps insertion order there (stable sort). -/
+def Index.list (i : Index) : List Nat :=
+  dedupIds ((i.entries.mergeSort fun a b => keyLe i.columns a.1 b.1).map (·.2))
+
 end Lungo
